@@ -6,6 +6,8 @@ P="$1"
 R="${2:-/repo}"
 cd "$(dirname "$0")/.."
 export GOFLAGS=-mod=mod GOPROXY=off GOSUMDB=off GOTOOLCHAIN=local; unset GOWORK
+# one mutation at a time per repo
+exec 9>"/tmp/.try_mutation.$(echo $R | tr / _).lock"; flock 9
 if [ -n "$(git -C $R status --porcelain)" ]; then echo "try_mutation: $R is not clean" >&2; exit 2; fi
 if ! git -C $R apply --check "$P" 2>/dev/null; then echo "try_mutation: patch does not apply: $P"; exit 3; fi
 git -C $R apply "$P"
